@@ -38,8 +38,8 @@ func (rst *RstStream) Error() error {
 }
 
 func (rst *RstStream) Deserialize(fr *FrameHeader) error {
-	if len(fr.payload) < 4 {
-		return ErrMissingBytes
+	if len(fr.payload) != 4 { // RFC 7540 6.4
+		return NewGoAwayError(FrameSizeError, "RST_STREAM frame must be 4 octets")
 	}
 
 	rst.code = ErrorCode(http2utils.BytesToUint32(fr.payload))
